@@ -21,6 +21,12 @@
 (*                      on_faulted fired)                                  *)
 (*   Seen{c, r}         request r reached connection c                     *)
 (*   Failed{r}          the pool answered r itself with an error           *)
+(*   Resp{r, c, ok}     the environment answers request r, which was in     *)
+(*                      flight on connection c (ok = FALSE: error, c is     *)
+(*                      dead); the response travels up through the pool.    *)
+(*                      No clause of its own: what the pool does with its   *)
+(*                      connection afterwards is judged by single / shared  *)
+(*                      / replace on the following events                   *)
 (*   Q                  quiescent point                                    *)
 (*  kind "refcounted" (RefCountedSink s wraps underlying sink s; optionally *)
 (*  handed out by a SharedSinkProvider)                                    *)
@@ -99,6 +105,8 @@ SCheck(a, e) ==
                                      /\ a.cur = a.reqs[r].had
          THEN "C16.replace" ELSE "ok"
     [] e.e \in {"Open", "Close"} -> "ok"
+    [] e.e = "Resp" -> IF e.r \notin DOMAIN a.reqs THEN "harness.unknownReq"
+                       ELSE IF a.reqs[e.r].st # "seen" THEN "harness.respBeforeSeen" ELSE "ok"
     [] OTHER -> "harness.unknownEvent"
 
 SUpd(a, e) ==
